@@ -217,11 +217,15 @@ impl ReadBuf {
         let start = match range.start_bound() {
             Bound::Unbounded => 0,
             Bound::Included(start_idx) => *start_idx,
-            Bound::Excluded(start_idx) => start_idx + 1,
+            Bound::Excluded(start_idx) => start_idx
+                .checked_add(1)
+                .expect("attempted to index slice from after maximum usize"),
         };
         let end = match range.end_bound() {
             Bound::Unbounded => original_len,
-            Bound::Included(end_idx) => end_idx + 1,
+            Bound::Included(end_idx) => end_idx
+                .checked_add(1)
+                .expect("attempted to index slice up to maximum usize"),
             Bound::Excluded(end_idx) => *end_idx,
         };
 
